@@ -151,7 +151,15 @@ def finishSet (c : Case) : List String :=
       let r := setAt c.en c.mpre off c.ty c.key c.val
       if r.1 == c.mpost then [] else
         [s!"{c.id} CORR diff [message] off={off} model=[{showHex r.1}] impl=[{showHex c.mpost}]"]
-  [corr] ++ corrRb ++ corrMsg ++ [s!"{c.id} PROP C09 {prop}", s!"{c.id} PROP TAG {tag}"]
+  -- projection `canon`: `get (set x v) = canon v` on the implementation's read-back (non-float kinds)
+  let corrCanon :=
+    if raised || !c.en || !inDom c.ty c.key c.val then [] else
+      match canonVal c.ty c.key c.val with
+      | none => []
+      | some l =>
+        if l == c.rb then [] else
+          [s!"{c.id} CORR diff [canon] canon=[{joinSp (l.map showScalar)}] impl=[{joinSp (c.rb.map showScalar)}]"]
+  [corr] ++ corrRb ++ corrMsg ++ corrCanon ++ [s!"{c.id} PROP C09 {prop}", s!"{c.id} PROP TAG {tag}"]
 
 def showFlags (l : List Bool) : String := joinSp (l.map fun b => if b then "1" else "0")
 
